@@ -105,6 +105,9 @@ func (p *Parser) Parse(llk *LLk, st *semantic.Statement) error {
 	if !b {
 		return fmt.Errorf("Parser.Parse: inconsitent parser, no error found, and no tokens were consumed")
 	}
+	if t := llk.Current(); t.Type != lexer.ItemEOF {
+		return fmt.Errorf("Parser.Parse: unexpected token %s after the end of the statement", t)
+	}
 	return nil
 }
 
